@@ -216,6 +216,9 @@ type Conn struct {
 	closed bool
 	// WriteErr, when set, is returned by every Write (fault injection).
 	writeErr error
+	// virtual write deadline: armed by SetDeadline / SetWriteDeadline, expires only when fired
+	wDeadlineSet bool
+	wFired       bool
 }
 
 // Pipe returns the client end and the server end of a fresh in-memory connection.
@@ -232,12 +235,16 @@ func (c *Conn) Write(p []byte) (int, error) {
 	c.mu.Lock()
 	we := c.writeErr
 	closed := c.closed
+	wexp := c.wDeadlineSet && c.wFired
 	c.mu.Unlock()
 	if closed {
 		return 0, net.ErrClosed
 	}
 	if we != nil {
 		return 0, we
+	}
+	if wexp {
+		return 0, ErrTimeout
 	}
 	n, err := c.wr.write(p)
 	if n > 0 && c.tap != nil {
@@ -328,7 +335,7 @@ func (c *Conn) SetDeadline(t time.Time) error {
 	if err := c.SetReadDeadline(t); err != nil {
 		return err
 	}
-	return nil
+	return c.SetWriteDeadline(t)
 }
 
 func (c *Conn) SetReadDeadline(t time.Time) error {
@@ -349,12 +356,33 @@ func (c *Conn) SetReadDeadline(t time.Time) error {
 
 func (c *Conn) SetWriteDeadline(t time.Time) error {
 	c.mu.Lock()
-	closed := c.closed
-	c.mu.Unlock()
-	if closed {
+	defer c.mu.Unlock()
+	if c.closed {
 		return net.ErrClosed
 	}
+	c.wDeadlineSet = !t.IsZero()
+	c.wFired = false
 	return nil
+}
+
+// FireWriteDeadline expires the currently armed write deadline of this end, if any: every
+// Write fails with a timeout error until a new deadline is set. Reports whether one was armed.
+func (c *Conn) FireWriteDeadline() bool {
+	c.mu.Lock()
+	defer c.mu.Unlock()
+	if !c.wDeadlineSet {
+		return false
+	}
+	c.wFired = true
+	return true
+}
+
+// FireDeadlines lets "more time than any armed deadline" pass on this end: both the read and
+// the write deadline expire if they are armed. Reports whether any was.
+func (c *Conn) FireDeadlines() bool {
+	r := c.FireReadDeadline()
+	w := c.FireWriteDeadline()
+	return r || w
 }
 
 // FireReadDeadline expires the currently armed read deadline of this end, if any: a pending
